@@ -194,6 +194,48 @@ pub fn sweep(out: &mut dyn Write, seed: u64, o: &Opts) {
             }
         }
     }
+    // 0d. the early "bigger than the theoretical limit" exit (twice the data capacity of the largest listed
+    // symbol) from both sides, with and without a prefix codeword: digit / letter bodies whose length is within
+    // a few characters of that limit, plain, inside a Macro 05 / 06 envelope (the envelope's nine characters
+    // are not encoded: the limit applies to the body), behind FNC1 and behind an ECI designator, for
+    // single-symbol lists of every small size and for the largest symbol
+    {
+        let sizes = all_sizes();
+        let mut n_gate = 0usize;
+        let mut targets: Vec<(u64, usize)> = vec![];
+        for (i, sz) in sizes.iter().enumerate() {
+            let cap = vh::size_info(*sz).num_data_codewords;
+            if cap <= 12 || i == 23 {
+                targets.push((1u64 << i, cap));
+            }
+        }
+        targets.push(((1u64 << 48) - 1, 1558));
+        for (mask, cap) in targets {
+            let lens: Vec<usize> = if cap > 100 {
+                vec![2 * cap - 11, 2 * cap - 9, 2 * cap - 2, 2 * cap]
+            } else {
+                ((2 * cap).saturating_sub(12)..=2 * cap + 2).collect()
+            };
+            for l in lens {
+                for kind in 0..5usize {
+                    if cap > 100 && kind >= 3 { continue; }
+                    let body: Vec<u8> = (0..l).map(|i| if kind == 4 { b'A' + (i % 26) as u8 } else { b'0' + (i % 10) as u8 }).collect();
+                    let (data, macros, fnc1, eci): (Vec<u8>, bool, bool, Option<u32>) = match kind {
+                        0 => (body, true, false, None),
+                        1 => { let mut d = b"[)>\x1E05\x1D".to_vec(); d.extend_from_slice(&body); d.extend_from_slice(b"\x1E\x04"); (d, true, false, None) }
+                        2 => { let mut d = b"[)>\x1E06\x1D".to_vec(); d.extend_from_slice(&body); d.extend_from_slice(b"\x1E\x04"); (d, l % 2 == 0, false, None) }
+                        3 => (body, true, true, None),
+                        _ => (body, true, false, if o.flags.contains('o') { None } else { Some(26) }),
+                    };
+                    let c = Case { data, modes: if kind == 4 { 63 } else { [63u8, 1, 3][l % 3] }, mask, macros, fnc1, eci };
+                    if o.ascii_enabled_only && c.modes & 1 == 0 { continue; }
+                    emit_case(out, o, &c, &mut hist);
+                    n_gate += 1;
+                }
+            }
+        }
+        hist.insert("capacity_gate_cases".into(), n_gate);
+    }
     // 1. exhaustive short strings over the class alphabet x sampled configurations
     if o.short_len > 0 {
         let strs = short_strings(o.short_len);
